@@ -340,3 +340,24 @@ PROPS["C04"] = dict(
     level_note="Trusted: the front applies exactly the scripted fault; a 400 ms HTTP timeout is configured so that stalled responses end.",
     assumptions=["a fault that the client survives (e.g. on a discovery probe, after which it falls back to plain HTTP) makes the sync succeed; then the success clauses are checked instead"],
 )
+
+PROPS["C06"] = dict(
+    race=False,
+    shards={"quick": 8, "thorough": 16},
+    level="exploration",
+    design_ref="DESIGN.md §3 C06",
+    technique="runtime monitor: seeded histories over scripted sources, checked step by step against the property's clauses with interval-time TTL reasoning and source call counters",
+    rule=("seeded histories of 10..40 steps over 1..3 scripted sources and populations of 2..45 providers (crossing the update-map merge threshold): "
+          "per-source content changes (appear, advance, regress, disappear), sources failing/healing, Refresh, Refresh whose context is "
+          "cancelled when source i is reached, two overlapping Refresh calls (one held open inside a source), Get on cached / uncached / "
+          "never-reported providers, strangers that start being reported, waits; TTL regimes 'huge' (nothing can expire) and 'tiny' (1 ns, "
+          "every step is certainly past it). Every record carries a unique tag and a version, so what Get/List show identifies the delivery "
+          "it came from. After every refresh that returned nil the clauses of the statement are checked for every provider; expiry uses "
+          "[before,after] wall-clock intervals and only asserts what is certain. distinct_nontrivial = distinct (configuration, first steps) histories."),
+    floors={"quick": {"refreshes_ok": 1000, "cancelled_then_successful_refresh": 200, "refreshes_overlapping": 300, "negative_hits": 30, "expiries_observed": 100,
+                      "miss_fetches_positive": 25, "publications_with_merge": 300, "publications_without_merge": 300, "strangers_start_being_reported": 200}},
+    level_text=("Exploration: the real cache is driven through thousands of seeded histories and compared after each step with the clauses of the "
+                "property (presence, freshest record, provenance of the record, monotonicity, TTL, negative caching)."),
+    level_note="Trusted: the scripted sources; wall-clock intervals taken around each call (only certain expiry outcomes are asserted).",
+    assumptions=["records without LastAdvertisementTime are not generated"],
+)
